@@ -411,12 +411,12 @@ namespace vf {
     }
 
     // boundary values for T from the TLC-generated table, tiers 0..maxtier
-    // (default: tier 0 in the quick tier, everything in the thorough tier)
+    // (default: tier 0 in the quick tier, tiers 0..1 in the thorough tier)
     template<class T>
     std::vector<T> boundary(int maxtier = -1)
     {
         if (maxtier < 0) {
-            maxtier = thorough() ? 2 : 0;
+            maxtier = thorough() ? 1 : 0;      // tier 2 (hundreds of values per type) only where a caller asks for it
         }
         auto const& t = value_table();
         auto it = t.find({static_cast<int>(sizeof(T) * 8), is_signed_int<T> ? 1 : 0});
